@@ -16,7 +16,8 @@ RULE = ("Hypothesis draws a problem (1-3 surveys [thorough 4] with 1-8 [40] epoc
         "the conditioning-aware tolerance of DESIGN 4.2; rows with 0.99<e<1 only need a finite value. "
         "A case is non-trivial when at least one of: s>0, n_offsets>=1, poly_trend>=2, non-zero prior mean, "
         "custom K prior, binding cap, period or velocity unit other than (day, data unit); distinct by fingerprint "
-        "of the full specification.")
+        "of the full specification."
+        ' Libraries: one in three is an object with a previous life (packed in other units, or re-assigned / overwritten columns after a first packing); the same file name is re-written from case to case. kappa > 1e14 (also under the recorded defect flags) is numerically singular: counted, not judged.')
 SHARDS = {"quick": 4, "thorough": 16}
 BUDGET = {"quick": 75, "thorough": 780}
 
